@@ -603,6 +603,9 @@ func (env *SpecEnv) unary(e *SExpr) SVal {
 	fv := env.fv
 	c := fv.ctx
 	x := env.eval(e.Args[0])
+	if x.NoCall {
+		return x
+	}
 	switch e.Name {
 	case "!":
 		return SVal{T: Not(x.T), Typ: x.Typ}
